@@ -90,3 +90,12 @@ Definition model_agrees (cs : lru_case) : bool :=
 
 Definition spec_accepts (cs : lru_case) : bool :=
   let '(c, ops, obs) := cs in trace_ok c [] ops obs.
+
+(* ---- long runs at large capacities: the driver reports every return value but the resident list
+   only at the end (a list of 10^4 entries after each of 10^4 steps would be 10^8 numbers) ---- *)
+Definition lru_sparse_case := (nat * list lru_op * list lru_out * res)%type.
+
+Definition model_agrees_sparse (cs : lru_sparse_case) : bool :=
+  let '(c, ops, outs, fin) := cs in
+  let '(s, mouts) := lru_run (lru_init c) ops in
+  list_eqb out_eqb mouts outs && res_eqb (resident s) fin.
